@@ -169,6 +169,32 @@ func init() {
 				segCase(cw, bufs[g.pick(len(bufs))], plain, cuts, kind+" random-cuts", &base)
 			}
 		}
+		// a reply longer than 2050 reads when it trickles in byte by byte
+		{
+			ms := []rscp.Message{{Tag: rscp.INFO_SERIAL_NUMBER, DataType: rscp.CString, Value: strings.Repeat("x", 2200)}}
+			plain := plainFrame(ms, true, g.time())
+			base := ""
+			segCase(cw, 2049, plain, nil, "long-reply one-piece", &base)
+			var cuts []int
+			for c := 1; c < len(plain); c++ {
+				cuts = append(cuts, c)
+			}
+			for _, bb := range []uint16{1, 4, 2048} {
+				segCase(cw, bb, plain, cuts, "long-reply byte-by-byte", &base)
+			}
+		}
+		// replies at the protocol maximum (2048 and 2049 blocks) with the largest receive buffers
+		for _, dataLen := range []int{65507, 65521} {
+			ms := []rscp.Message{{Tag: rscp.INFO_SERIAL_NUMBER, DataType: rscp.CString, Value: strings.Repeat("y", dataLen)}}
+			plain := plainFrame(ms, true, g.time())
+			base := ""
+			segCase(cw, 1, plain, nil, fmt.Sprintf("max-reply blocks=%d buffer=1", len(plain)/32), &base)
+			for _, bb := range []uint16{2047, 2048, 2049} {
+				segCase(cw, bb, plain, nil, fmt.Sprintf("max-reply blocks=%d one-piece", len(plain)/32), &base)
+				segCase(cw, bb, plain, []int{5}, fmt.Sprintf("max-reply blocks=%d 5+rest", len(plain)/32), &base)
+				segCase(cw, bb, plain, []int{len(plain) - 7}, fmt.Sprintf("max-reply blocks=%d rest+7", len(plain)/32), &base)
+			}
+		}
 		_ = time.Now
 	}
 	replayers["recv"] = func(op string) string {
